@@ -62,3 +62,83 @@ def uniqueness_lemma():
 
 
 CONTRACTS = [findspan, findspans]
+
+
+# ---------------------------------------------------------------------------------------------------------------
+# bspline_active_deriv_single for *every* degree p < 64 and every derivative count: memory safety of the unchecked
+# kernel (64-entry stack buffers, NDU, result), non-zero denominators, non-negativity of the values.
+
+def _ads_req(s):
+    kv, p, u = s.knotvec.kv, s.knotvec.p, s.u
+    n = kv.len
+    return open_kv(kv, p) + [sorted_leq(kv), n <= INT_MAX, kv[p] <= u, u <= kv[n - p - 1], p < 64, s.numderiv >= 0]
+
+
+def _span_facts(s):
+    kv, p, u, sp_ = s.kv, s.p, s.u, s.span
+    n = kv.len
+    return And(p <= sp_, sp_ <= n - p - 2, kv[sp_] <= u, u <= kv[sp_ + 1], kv[sp_] < kv[sp_ + 1], s.NDU.shape[0] == p + 1, s.NDU.shape[1] == p + 1,
+               s.result.shape[0] == s.numderiv + 1, s.result.shape[1] == p + 1, p == s.knotvec.p, 0 <= p, p < 64)
+
+
+def _lr(s, upto):
+    return ForAll('i', lambda i: Implies(And(0 <= i, i < upto), And(s.left[i] == s.u - s.kv[s.span - i], s.right[i] == s.kv[s.span + 1 + i] - s.u)))
+
+
+def _lower_pos(s, jmax):
+    return ForAll('a b', lambda a, b: Implies(And(1 <= a, a < jmax, 0 <= b, b < a), s.NDU[a, b] > 0))
+
+
+def _col_nonneg(s, col, upto):
+    return ForAll('a', lambda a: Implies(And(0 <= a, a < upto), s.NDU[a, col] >= 0))
+
+
+def _ads_loop0(s):
+    return [('span', _span_facts(s)), ('knot-splits', _lr(s, s.j - 1)), ('column-nonneg', _col_nonneg(s, s.j - 1, s.j)),
+            ('denominators-positive', _lower_pos(s, s.j))]
+
+
+def _ads_loop1(s):
+    return [('span', _span_facts(s)), ('j', And(1 <= s.j, s.j <= s.p)), ('knot-splits', _lr(s, s.j)),
+            ('old-column-nonneg', _col_nonneg(s, s.j - 1, s.j)), ('denominators-positive', _lower_pos(s, s.j)),
+            ('saved', s.saved >= 0), ('new-column-nonneg', _col_nonneg(s, s.j, s.r)),
+            ('new-row-positive', ForAll('b', lambda b: Implies(And(0 <= b, b < s.r), s.NDU[s.j, b] > 0)))]
+
+
+def _values_nonneg(s, upto):
+    return ForAll('a', lambda a: Implies(And(0 <= a, a < upto), s.result[0, a] >= 0))
+
+
+def _ads_loop2(s):
+    return [('span', _span_facts(s)), ('last-column-nonneg', _col_nonneg(s, s.p, s.p + 1)), ('denominators-positive', _lower_pos(s, s.p + 1)),
+            ('values-nonneg', _values_nonneg(s, s.j))]
+
+
+def _ads_deriv_common(s):
+    return [('span', _span_facts(s)), ('denominators-positive', _lower_pos(s, s.p + 1)), ('values-nonneg', _values_nonneg(s, s.p + 1)),
+            ('buffers', s.a1.ref is not s.a2.ref)]
+
+
+active_deriv_single = Contract(
+    F, 'bspline_active_deriv_single',
+    params={'knotvec': Obj(kv=Arr('real', 1), p=Int(0, 63)), 'u': Real(), 'numderiv': CInt(32, True), 'result': Const(None)},
+    requires=_ads_req,
+    callees={'pyx_findspan': findspan},
+    loops={0: LoopSpec(r'for j in range\(1, p\+1\)', inv=_ads_loop0),
+           1: LoopSpec(r'for r in range\(j\)', inv=_ads_loop1),
+           2: LoopSpec(r'for j in range\(p\+1\)', inv=_ads_loop2),
+           3: LoopSpec(r'for r in range\(p\+1\)', inv=_ads_deriv_common),
+           4: LoopSpec(r'for k in range\(1, numderiv\+1\)', inv=lambda s: _ads_deriv_common(s) + [('r', And(0 <= s.r, s.r <= s.p)), ('k', s.k >= 1)]),
+           5: LoopSpec(r'for j in range\(j1, j2\+1\)', inv=lambda s: _ads_deriv_common(s) + [
+               ('r', And(0 <= s.r, s.r <= s.p)), ('k', And(s.k >= 1, s.k <= s.numderiv)), ('rk', And(s.rk == s.r - s.k, s.pk == s.p - s.k)),
+               ('j1', And(s.j1 == If(s.rk >= -1, 1, -s.rk), s.j2 == If(s.r - 1 <= s.pk, s.k - 1, s.p - s.r)))])},
+    ensures=lambda s: [('values-nonneg', ForAll('a', lambda a: Implies(And(0 <= a, a <= s.knotvec.p), s.result[0, a] >= 0))),
+                       ('shape', And(s.result.shape[0] == s.numderiv + 1, s.result.shape[1] == s.knotvec.p + 1))],
+    options={'overflow': False, 'timeout_ms': 60000},
+    notes=['C int overflow of fac = p!/(p-k)! for p >= 13 is outside this contract (overflow obligations disabled for this function; '
+           'the property ranges over p <= 12)',
+           'for every p < 64 and every derivative count: all accesses to left/right/a1/a2 (64 entries), NDU and result are in bounds (the '
+           'blocks guarded by r>=k, j1..j2, r<=pk are dead when k > p), all denominators are positive, values are non-negative'],
+)
+
+CONTRACTS = [findspan, findspans, active_deriv_single]
